@@ -82,6 +82,12 @@ def run(chk, prog):
         rr = ev.apply(r.ret, [P("$fn")], module=Pc.module, cls=Pc)
         okp = rr == ("ctor", "Closure", (P("args"), P("$fn")), ())
     chk.require(okp, "PYTREE-FIELDS", "Pytree.partial", "Closure(args, fn)", derived=show(r.ret), expected="lambda fn: Closure(args, fn)", where=W(Pc, "partial"))
+    rc = Evaluator(prog).eval_fn(Pc.methods["const"], Pc.module, Pc)
+    got = {}
+    for conds, ret in rc.returns:
+        got["const" if any(is_t(t, "isinst") and t[2] == "Const" and p for t, p in conds) else "other"] = ret
+    chk.require(got.get("const") == P("v") and got.get("other") == ("ctor", "Const", (P("v"),), ()), "PYTREE-FIELDS", "Pytree.const", "the WHOLE value wrapped in one Const (compound constants are not mapped leafwise)",
+                derived={k: show(v) for k, v in got.items()}.__str__(), expected="v if isinstance(v, Const) else Const(v)", where=W(Pc, "const"))
     for meth, spec in (("tree_const", "wrap"), ("tree_const_unwrap", "unwrap")):
         fn = Pc.methods[meth]
         inner = prog.nested(fn, "_inner")
